@@ -2024,6 +2024,57 @@ struct Fill
                     mbad(ck == CK::lfu ? 11 : 14, "use count is " + std::to_string(q.v[2]) + " after one insert and " + std::to_string(M) + " lookups");
             }
         }
+        if constexpr (ck == CK::rr)
+            if (id == 10)
+            {
+                // C15 at scale (seed C15f: a 16-bit victim index, exact up to 65536 slots): from a freshly filled
+                // cache of N entries the victims chosen under the RNGQ generator quantiles must be spread over the
+                // whole position range.  A fresh fill puts the i-th key into the i-th slot; cut the residents in
+                // fill order into RNGQ equal blocks: the quantile seeds lie in the middle half of RNGQ equal slices
+                // of the generator range, so under a uniform draw over [0, N-1] every block loses exactly one
+                // entry (N >= 48 keeps the slice midpoints off the block borders).  Keys are passed to the
+                // container directly (Op keys are 16 bit).
+                std::vector<int> per_block(RNGQ, 0);
+                std::string      vs;
+                bool             sane = true;
+                for (int q = 0; q < RNGQ && sane; q++)
+                {
+                    AD a2(cfg);
+                    for (int k = 1; k <= N; k++)
+                        a2.c.insert(Key{k}, Val(7000 + (k & 1023), k), cap::allow::insert_or_update);
+                    a2.reseed(q);
+                    bool ok      = a2.c.insert(Key{N + 1}, Val(7999, N + 1), cap::allow::insert_or_update);
+                    int  missing = 0, gone = 0;
+                    for (int k = 1; k <= N; k++)
+                        if (!a2.c.find(Key{k}).has_value())
+                        {
+                            missing++;
+                            gone = k;
+                        }
+                    steps += 2 * (long)N + 1;
+                    if (!ok || missing != 1 || !a2.c.find(Key{N + 1}).has_value() || (long)a2.c.size() != (long)N)
+                    {
+                        mbad(3, "an insert of a new key into a full cache (generator quantile " + std::to_string(q) + ") returned " + std::to_string(ok) +
+                                    ", removed " + std::to_string(missing) + " residents and left size() " + std::to_string(a2.c.size()));
+                        mbad(15, "an evicting insert (generator quantile " + std::to_string(q) + ") removed " + std::to_string(missing) +
+                                     " prior residents instead of exactly one, or not the prior residents only");
+                        sane = false;
+                        break;
+                    }
+                    per_block[(int)(((long)(gone - 1) * RNGQ) / N)]++;
+                    vs += (q ? "," : "") + std::to_string(gone - 1);
+                }
+                // (the black-box fallback build cannot seed the generator: only the one-victim part is judged there)
+                if (sane && AD::whitebox)
+                    for (int b = 0; b < RNGQ; b++)
+                        if (per_block[b] != 1)
+                        {
+                            mbad(15, "eviction choice is not spread over the resident positions: block " + std::to_string(b) + " of the " + std::to_string(RNGQ) +
+                                         " equal blocks of fill positions is chosen by " + std::to_string(per_block[b]) + " of the " + std::to_string(RNGQ) +
+                                         " generator quantiles (victim positions by quantile: " + vs + ")");
+                            break;
+                        }
+            }
         if (g_vs.live != before.live || g_vs.bad_destroy != before.bad_destroy || g_vs.bad_use != before.bad_use)
         {
             mbad(8, "value instances not destroyed exactly once");
@@ -2038,6 +2089,9 @@ struct Fill
             if (N <= nmax)
                 for (int id = 0; id <= 9; id++)
                     mass_script(id, N);
+        if (ck == CK::rr && (a.prop == 15 || a.prop == 3))
+            for (int N : {48, 120, 4097, 65536, 65537, 70000, 131073})
+                mass_script(10, N);
     }
 
     // replay of a recorded fill history: same calls, same reference, verify after every call
